@@ -2,7 +2,7 @@
 import ast
 from ..core import RuleResult, Finding, AnalysisError, dotted, src, norm_construct
 from .. import paths
-from ..expr import free_names
+from ..expr import free_names, dump
 
 SOLVER = 'pypose.optim.solver'
 # torch.linalg functions that return a status instead of raising: name -> index of the status in the result tuple
@@ -163,5 +163,50 @@ def _touch(e, names):
     return any(u == n or u.startswith(n + '.') for u in used for n in names)
 
 
+
+
+def rule_zero(repo, tier):
+    from ..expr import Inliner, free_names
+    res = RuleResult('C10.ZERO', 'CG: on the early exit taken when the right-hand side is exactly zero the returned value derives from b (or '
+                     'fresh zeros), never from the caller\'s initial guess - the solution of A x = 0 is zero', floor=1)
+    f = repo.func(SOLVER, 'CG.forward')
+    pp = f.pos_params
+    bname, xname = pp[2], pp[3] if len(pp) > 3 else 'x'
+    pths, _ = paths.function_paths(f.node, limit=4096, strict=False, unroll=lambda l: 1)
+    n = 0
+    seen = set()
+    for ev, ex in pths:
+        if ex != 'return':
+            continue
+        inl = Inliner()
+        zero_branch = False
+        for e in ev:
+            if e[0] == 'assume' and e[2]:
+                t = inl.value(e[1])
+                # (norm(b) == 0).all()  /  not b.any()
+                if any(isinstance(c, ast.Compare) and len(c.ops) == 1 and isinstance(c.ops[0], ast.Eq) and isinstance(c.comparators[0], ast.Constant)
+                       and c.comparators[0].value == 0 and bname in free_names(c.left) for c in ast.walk(t)):
+                    zero_branch = True
+            if e[0] == 'stmt':
+                if isinstance(e[1], ast.Return) and zero_branch and e[1].value is not None:
+                    v = inl.value(e[1].value)
+                    key = dump(v)
+                    if key in seen:
+                        continue
+                    seen.add(key)
+                    n += 1
+                    bad = xname in free_names(v)
+                    res.inst({'function': f.fq, 'returns_on_zero_rhs': src(v)[:80], 'independent_of_initial_guess': not bad}, key)
+                    if bad:
+                        res.add(Finding('C10.ZERO', f, 'for b = 0 CG returns `%s`, which depends on the caller\'s initial guess `%s`: a non-zero guess '
+                                        'is returned as the solution of A x = 0' % (src(v)[:70], xname), node=e[1]))
+                inl.feed(e[1])
+            elif e[0] == 'iter':
+                inl.feed(e[1])
+    if n == 0:
+        raise AnalysisError('C10.ZERO: the zero right-hand-side early exit of CG.forward was not found')
+    return res
+
+
 def rules(repo, tier):
-    return [rule_status(repo, tier), rule_lstsq(repo, tier)]
+    return [rule_status(repo, tier), rule_lstsq(repo, tier), rule_zero(repo, tier)]
